@@ -280,6 +280,20 @@ CHECKS["C16"] = dict(
     technique="who-may-write queries + control dependence / must-follow + exact folding of mapping functions + path exploration",
     design="3/C16")
 
+
+CHECKS["C20"] = dict(
+    text="Decides structural necessary conditions only; transparency, ordering and exactly-once across the two legs under back-pressure are relations on run-time "
+         "histories and are not decided. Decided on all paths of the relay (its own units, extracted with the build's flags): (R1) a direction receives only "
+         "when it holds nothing, records exactly the received length and switches to awaiting output; after a send the held length is reduced by the accepted "
+         "count (or cleared on a message transport), input is awaited exactly when nothing is left and otherwise the rest is moved to the front; (R2) the shared "
+         "condition words are only or-ed / and-not-ed with single flags, each direction uses RECEIVABLE on its source and SENDABLE on its destination, and the "
+         "two directions are wired crosswise; (R3) a direction's termination stops and destroys its own relay only and no exit()/loop break is reachable from "
+         "the forwarding callback; (R4) a relay is created only on the equal edge of the service comparison and every other exit of the accept path closes what "
+         "it opened; (R5) a leg is closed only after its pending output was finished - known finding K7 (two close sites), replayed with a short-write shim.",
+    note=TRUSTED + " The XCM library's own guarantees (C01-C06) are assumed for the relay's calls into it.",
+    technique="path exploration (hold-one-message typestate, ownership) + operator/constant checks + call-graph reachability",
+    design="3/C20")
+
 NOT_APPLICABLE = {}
 
 
